@@ -150,22 +150,75 @@ def _parent(root, node):
 
 
 def _check_decorator(ck, ctx, dc):
+    """the @dialect(name) decorator evaluated (E3 interpreter) on every class it decorates - with the Field objects of the class
+    body as abstract objects - and compared with what the dataclass-field model (dcmodel) assumes: __d_name__, and per field the
+    output_modes list (an existing list extended, otherwise [name]); non-Field members untouched; however the decorator is written"""
+    from ..pyabs import Interp, Obj, PyRaise, Raised, LexUnknown, NonUniform
     m = ctx.model
     f = dc.dmod.funcs.get("dialect")
     if f is None:
         raise AnalysisError("anchor vanished: the dialect() decorator")
-    src = ast.unparse(f.node)
-    facts = {
-        "tags only Field objects": "isinstance(value, Field)" in src,
-        "sets __d_name__": "cls.__d_name__ = name" in src,
-        "output_modes = [name] (extending an existing list)": "new_metadata = {'output_modes': [name]}" in src
-        and "metadata['output_modes'].extend(new_metadata['output_modes'])" in src and "metadata.update(new_metadata)" in src,
-        "works on a copy of the metadata": "metadata = value.metadata.copy()" in src,
-    }
-    for k, v in facts.items():
-        if not v:
-            raise AnalysisError(f"the dialect() decorator no longer has the shape the dataclass-field model assumes ({k}); re-confirm the model")
-        ck.ob("T-MODE.decorator", f"dialect(): {k}", True, "as the dataclass-field model assumes", f.loc())
+
+    class _Dec(Interp):
+        def builtin(self, name, args, kwargs):
+            if name == "isinstance" and len(args) == 2 and isinstance(args[1], tuple) and args[1][:1] == ("ext",):
+                if args[1][1] == "dataclasses.Field":
+                    return isinstance(args[0], Obj) and getattr(args[0], "_kind", None) == "Field"
+                raise LexUnknown(f"isinstance against {args[1][1]}")
+            return super().builtin(name, args, kwargs)
+
+    n = 0
+    for key, c in m.classes.items():
+        if not c.module.name.startswith("simple_ddl_parser.output"):
+            continue
+        decs = [(nm, call) for nm, call in dc._decorators(c) if nm == "dialect"]
+        if not decs:
+            continue
+        (nm, call), = decs
+        it = _Dec(m, ctx.grammar.tokens_ns, Obj())
+        env = {"__module__": c.module}
+        args = [it.ev(a_, env) for a_ in call.args]
+        kwargs = {k.arg: it.ev(k.value, env) for k in call.keywords}
+        # the class body as the decorator sees it: Field objects as the field() calls leave them, one method, one plain value
+        before = {}
+        cls_obj = Obj()
+        for st in c.node.body:
+            if isinstance(st, ast.AnnAssign) and isinstance(st.target, ast.Name):
+                fi = dc._field(c, st)
+                if fi.from_field_call:
+                    md = {k_: (list(v_) if isinstance(v_, list) else v_) for k_, v_ in fi.metadata.items()}
+                    before[fi.name] = md
+                    setattr(cls_obj, fi.name, Obj(_kind="Field", metadata=md, default=None, default_factory=None))
+        cls_obj.some_method = ("func", None)
+        cls_obj.some_value = "v"
+        try:
+            wrapper = it.call_func(f, args, kwargs)
+            if not (isinstance(wrapper, tuple) and wrapper[:1] == ("closure",)):
+                raise LexUnknown(f"dialect(...) returns {wrapper!r}")
+            res = it.call_closure(wrapper[1], wrapper[2], [cls_obj], {})
+        except (PyRaise, Raised) as e:
+            ck.ob("T-MODE.decorator", f"dialect() on {c.name}", False, f"the decorator raises: {e}", f.loc())
+            continue
+        except (LexUnknown, NonUniform) as e:
+            raise AnalysisError(f"the dialect() decorator is outside the interpreted subset: {e}")
+        want_name = dc.d_name[key]
+        ok = res is cls_obj and getattr(cls_obj, "__d_name__", None) == want_name
+        detail = "" if ok else f"returns {res!r}, __d_name__ = {getattr(cls_obj, '__d_name__', None)!r} (model: {want_name!r})"
+        own = {fi.name: fi for fi in dc.own_fields[key]}
+        for fname, md0 in before.items():
+            fo = getattr(cls_obj, fname, None)
+            got = getattr(fo, "metadata", None) if isinstance(fo, Obj) else None
+            exp = dict(own[fname].metadata)
+            if not (isinstance(got, dict) and {k_: (list(v_) if isinstance(v_, list) else v_) for k_, v_ in got.items()} == exp):
+                ok, detail = False, f"field {fname}: metadata after the decorator {got!r}, the dataclass-field model assumes {exp!r}"
+                break
+        if ok and (cls_obj.some_method != ("func", None) or cls_obj.some_value != "v"):
+            ok, detail = False, "a member that is not a Field object is changed"
+        n += 1
+        ck.ob("T-MODE.decorator", f"dialect() evaluated on {c.name}: __d_name__ and output_modes of {len(before)} fields", ok,
+              detail or "as the dataclass-field model assumes", f.loc())
+    if n < 5:
+        raise AnalysisError(f"only {n} classes decorated with @dialect found")
 
 
 def _check_filter(ck, ctx):
@@ -378,9 +431,17 @@ def _check_hooks(ck, ctx, dc):
           "Output.__init__ (schema_key), clean_up_index_statement (mssql), pre_load_mods (bigquery), get_dialect_class (sql)", "")
     # the BigQuery rename of the table entry happens exactly once and only renames
     plm = m.func("simple_ddl_parser.output.table_data:TableData.pre_load_mods")
-    src = ast.unparse(plm.node)
-    ck.ob("T-MODE.rename", "pre_load_mods: kwargs['dataset'] = kwargs['schema']; del kwargs['schema'] under bigquery",
-          "kwargs['dataset'] = kwargs['schema']" in src and "del kwargs['schema']" in src, "", plm.loc())
+    kes = key_effects(plm.node)
+    stores = [ke for ke in kes if ke.op in ("store", "update") and ke.key == "dataset"]
+    drops = [ke for ke in kes if ke.op in ("del", "pop") and ke.key == "schema"]
+
+    def _reads_schema(ke):
+        v = getattr(ke.stmt, "value", None) if ke.stmt is not None else ke.node
+        return v is not None and any(isinstance(c, ast.Constant) and c.value == "schema" for c in ast.walk(v))
+    ck.ob("T-MODE.rename", "pre_load_mods: the value under 'schema' moves to 'dataset' and 'schema' is removed (one receiver) under bigquery",
+          any(st.recv == dr.recv and _reads_schema(st) for st in stores for dr in drops),
+          "key effects of the function: a store of 'dataset' whose value reads 'schema', and a del / pop of 'schema', on the same dict "
+          "(the resulting output is judged per mode by O-mode)", plm.loc())
     # in-place hook on a per-column copy
     bd = m.func(f"{BASE_MOD}:BaseData.create_alter_column_references")
     calls = [n for n in ast.walk(bd.node) if S.is_self_call("prepare_ref_statement")(n)]
@@ -400,10 +461,11 @@ def _check_hooks(ck, ctx, dc):
               "not the references dict shared by all columns of the statement", bd.loc(call))
     # overridden hooks keep BaseData's processing: CommonDialectsFieldsMixin.__post_init__ calls super().__post_init__() first
     mix = m.func(f"{DIALECTS_MOD}:CommonDialectsFieldsMixin.__post_init__")
-    first = mix.node.body[0]
-    ck.ob("T-MODE.hooks", "CommonDialectsFieldsMixin.__post_init__ runs BaseData.__post_init__ first",
-          isinstance(first, ast.Expr) and ast.unparse(first.value) == "super().__post_init__()",
-          "key collection / unique propagation must run in every mode", mix.loc())
+    chained = [st for st in mix.node.body if isinstance(st, ast.Expr) and isinstance(st.value, ast.Call)
+               and isinstance(st.value.func, ast.Attribute) and st.value.func.attr == "__post_init__"
+               and (ast.unparse(st.value.func.value).startswith("super(") or ast.unparse(st.value.func.value) in ("BaseData", "Dialect"))]
+    ck.ob("T-MODE.hooks", "CommonDialectsFieldsMixin.__post_init__ runs BaseData.__post_init__ unconditionally",
+          bool(chained), "key collection / unique propagation must run in every mode (a top-level call of the inherited __post_init__)", mix.loc())
     for key, c in m.classes.items():
         if key[0] != DIALECTS_MOD:
             continue
